@@ -3,8 +3,8 @@ import gens
 from props.common import TRUSTED_BASE, ASSUMPTIONS
 
 ID = "C01"
-LEAN_MODULES = ["LexVerif.Props.C01"]
-GEN = []
+LEAN_MODULES = ["LexVerif.Props.C01", "LexVerif.Props.RoundNE", "LexVerif.Props.TablesParse"]
+GEN = ["parse_tables"]
 TRUSTED = TRUSTED_BASE + [
     "full correctness of Eisel-Lemire / Bellerophon / big-integer slow path is NOT proved in Lean: the proved part is the oracle (roundNE) and the tables; the algorithms are compared with the oracle on number-theoretic worst cases",
 ]
@@ -12,6 +12,11 @@ RULE = ("G-hard: per decimal power q, mantissas m < 10^19 (and near 2^53, and sh
         "between adjacent floats (Euclid-style search, hard/hardgen.py), each as plain / pointed / truncation-crossing "
         "((m-1)999.., m000..1) / zero-padded / 20..2000-digit-tail literals; G-exp: exponents at every cut-off; random structured "
         "decimals. non-trivial = accepted literal with a finite non-zero result or a result decided at a cut-off; distinct = distinct op lines")
+
+
+TECHNIQUE = 'Lean 4 proof (oracle roundNE nearest/ties-even; all power/limit tables kernel-checked against closed forms) + correspondence on number-theoretic worst cases'
+LEVEL_TEXT = 'Proved in Lean for all inputs: the specification oracle (roundNE is the nearest float, ties to even, monotone, exact on floats, correct overflow threshold) and, for every row, that the Eisel-Lemire / small-power / Bellerophon / big-integer tables and limits regenerated from the compiled crate equal their closed forms. NOT proved: the Eisel-Lemire, Bellerophon and big-integer algorithms themselves; they are compared with the oracle on worst-case inputs (closest-to-midpoint mantissas per power, truncation-crossing and long-tail literals, exponent cut-offs) on four to eight feature sets. Partial proof, stated as such.'
+LEVEL_NOTE = "Trusted: Lean kernel; rustc; the dump binary and generator (R); the differential harness and generators (C). The float algorithms' control flow is modelled by the oracle only (no Lean model of lemire/bellerophon/slow yet)."
 
 
 def feature_sets(tier):
